@@ -74,7 +74,7 @@ def run(ctx):
     if not (drv and interp):
         return
     quick = ctx.tier == "quick"
-    nprog = 14 if quick else 240
+    nprog = 9 if quick else 150
     cap = 400 if quick else 3000          # bound on the number of maximal executions of the unreduced state space
     if ctx.broken:
         nprog *= 4
